@@ -197,6 +197,14 @@ def check(ctx):
     res.inst("R-C17-* (imported)", "C17-clauses", "", True, "%d instances, %d violations" % (len(r17.instances), len(r17.violations)))
     for v in r17.violations:
         res.violate(v.rule, v.key, v.where, v.msg, v.detail)
+    # the automaton attached to the error is the normalised one: renumbering must be consistent (C01's rule, same facts)
+    from . import c01 as _c01
+    r01 = _R2("C01", ctx["tier"], "other")
+    _c01.check_renumber(mir, r01, "R-C01-renumber")
+    res.rule("R-C01-renumber (imported)", "start, state order and every transition end go through the updater of one sort of the automaton's own state list (C01's rule): the attached automaton's start and transitions name the states they mean")
+    res.inst("R-C01-renumber (imported)", "C01 renumbering rule", "", True, "%d instances, %d violations" % (len(r01.instances), len(r01.violations)))
+    for v in r01.violations:
+        res.violate(v.rule, v.key, v.where, v.msg, v.detail)
     res.assume("not decided here: that the attached automaton is *the LALR(1)* automaton of the grammar (C17); decided: it is the automaton the tables were being filled from, built from the validated input")
     return finish(res, "Provenance of every field of the conflict error decided by intra-procedural value reconstruction on MIR along the whole call chain from the per-state loop to the single construction site, plus the look-ahead/action pairing at each of the three call sites of the conflict detector and the wiring in generate. No test ever constructs this error.")
 
